@@ -502,7 +502,7 @@ def c25_extract(R):
             "(slice value 2... the operand is 2) is cut off",
             construct="_balance_extract: padded constant narrower than the operand",
         )
-    R.need(n >= 2, f"_balance_extract: only {n} padded rewrites found")
+    R.need(n >= 1, f"_balance_extract: only {n} padded rewrites found")
     # the low slice that is tested for zero
     for st in walk_no_nested(raw):
         if isinstance(st, ast.Assign) and isinstance(st.value, ast.Subscript) and isinstance(st.value.slice, ast.Slice) and ast.unparse(st.value.value) == inner:
@@ -649,3 +649,62 @@ def c04_fpedge(R):
             f"U+10000..U+2FFFF, which then come back as the escape text (StrLen of a returned value is 9 instead of 1)",
             construct="_Z3_ESCAPE: hex digits accepted",
         )
+
+
+@rule(
+    "C06.annfields",
+    props=("C06", "C07"),
+    floor=2,
+    family="SIB",
+    desc="an annotation class with fields of its own is compared by an __eq__ that reads them (or by identity): an __eq__ "
+    "inherited from a field-less base that compares types only makes two annotations with different contents one "
+    "annotation - remove_annotation() then removes the wrong one and hash-consing merges the two expressions",
+)
+def c06_annfields(R):
+    tree = R.tree
+    ANNP = "claripy/annotation.py"
+    m = tree.mod(ANNP)
+    classes = m.classes
+    n = 0
+
+    def bases(c):
+        return [dotted(b) for b in c.bases if dotted(b) in classes]
+
+    def lookup(c, meth, seen=()):
+        """(owner class, FunctionDef) of the nearest definition of `meth` through the bases inside the module"""
+        ms = util.methods_of(c)
+        if meth in ms:
+            return c, ms[meth]
+        for b in bases(c):
+            if b not in seen:
+                r = lookup(classes[b], meth, (*seen, b))
+                if r is not None:
+                    return r
+        return None
+
+    for name, c in classes.items():
+        init = util.methods_of(c).get("__init__")
+        if init is None:
+            continue
+        fields = sorted({a for a, kind, node, val in util.attr_writes(init, "self")})
+        if not fields:
+            continue
+        n += 1
+        eq = lookup(c, "__eq__")
+        if eq is None:
+            R.ok(m, c, f"{name}: compared by identity")
+            continue
+        owner, fn = eq
+        read = {x.attr for x in ast.walk(fn) if isinstance(x, ast.Attribute)}
+        missing = [f for f in fields if f not in read and f.lstrip("_") not in read]
+        R.check(
+            not missing,
+            m,
+            c,
+            f"{name}: __eq__ reads its fields",
+            f"{name} has the fields {fields} and is compared by {owner.name}.__eq__, which does not read {missing}: two {name} "
+            f"annotations with different contents are equal - removing the stack region from x annotated with a stack and a global "
+            f"region returns the bare x, and x.annotate(Origin(0x2000)) comes back as the object annotated with Origin(0x1000)",
+            construct=f"{name}: __eq__ ignores {missing}",
+        )
+    R.need(n >= 2, f"only {n} annotation classes with fields found")
